@@ -64,7 +64,7 @@ _new_rxn = st.fixed_dictionaries({
 OPS: Dict[str, Any] = {
     "add_reactions": _d("add_reactions", rxns=st.lists(_new_rxn, min_size=1, max_size=3, unique_by=lambda d: d["id"]),
                         own=st.sampled_from([False, False, True])),
-    "remove_reactions": _d("remove_reactions", sels=st.lists(_k, min_size=1, max_size=3), by=st.sampled_from(["obj", "id", "mixed"]),
+    "remove_reactions": _d("remove_reactions", sels=st.lists(_k, min_size=1, max_size=3), by=st.sampled_from(["obj", "id", "mixed", "dictlist"]),
                            orphans=st.booleans(), single=st.booleans(), via=st.sampled_from(["model", "model", "rxn"])),
     "readd": _d("readd", k=_k),
     "detached_bounds": _d("detached_bounds", k=_k, b=_bnd),
@@ -330,6 +330,10 @@ class World:
         if op["via"] == "rxn" or op["single"]:
             objs = objs[:1]
         objs = list(dict.fromkeys(objs))
+        if op["by"] == "dictlist":  # e.g. model.remove_reactions(model.reactions.query(...))
+            from cobra import DictList
+
+            picked = DictList(objs)
         try:
             if op["via"] == "rxn":
                 objs[0].remove_from_model(remove_orphans=op["orphans"])
